@@ -133,6 +133,10 @@ pub struct DriverShared {
     pub fail_write_always: Vec<bool>,
     /// fail the next n writes of driver i
     pub fail_write_n: Vec<u32>,
+    /// driver i reports `IoDriverHealth::Faulted` from `health()` once one of its calls has failed
+    /// (what the field-bus drivers do), while later calls may succeed again
+    pub report_health: Vec<bool>,
+    pub unhealthy: Vec<bool>,
     /// when set, every driver call first drains the runtime events into the log (fixes the
     /// order of driver calls relative to CycleStart/TaskStart/Fault/... events)
     pub debug: Option<trust_runtime::debug::DebugControl>,
@@ -184,6 +188,8 @@ impl DriverShared {
             fail_write: vec![false; n],
             fail_write_always: vec![false; n],
             fail_write_n: vec![0; n],
+            report_health: vec![false; n],
+            unhealthy: vec![false; n],
             debug: None,
         }))
     }
@@ -202,6 +208,7 @@ impl IoDriver for SimDriver {
         s.read_calls[i] += 1;
         if s.fail_read[i] {
             s.fail_read[i] = false;
+            s.unhealthy[i] = true;
             s.log.push(DriverEvent::ReadErr { driver: i });
             return Err(RuntimeError::IoDriver("sim read fault".into()));
         }
@@ -233,11 +240,21 @@ impl IoDriver for SimDriver {
         if s.fail_write[i] || s.fail_write_always[i] || s.fail_write_n[i] > 0 {
             s.fail_write[i] = false;
             s.fail_write_n[i] = s.fail_write_n[i].saturating_sub(1);
+            s.unhealthy[i] = true;
             s.log.push(DriverEvent::WriteErr { driver: i });
             return Err(RuntimeError::IoDriver("sim write fault".into()));
         }
         s.log.push(DriverEvent::Write { driver: i, image: outputs.to_vec() });
         Ok(())
+    }
+
+    fn health(&self) -> trust_runtime::io::IoDriverHealth {
+        let s = self.shared.lock().unwrap_or_else(|e| e.into_inner());
+        if s.report_health[self.index] && s.unhealthy[self.index] {
+            trust_runtime::io::IoDriverHealth::Faulted { error: "sim driver fault".into() }
+        } else {
+            trust_runtime::io::IoDriverHealth::Ok
+        }
     }
 }
 
